@@ -65,6 +65,9 @@ def validate(number):
     number = compact(number)
     try:
         test_number = _to_base10(number)
+        # the creditor business code is not part of the check
+        # but should also only contain valid characters
+        _to_base10(number[4:7])
     except Exception:  # noqa: B902
         raise InvalidFormat()
     # ensure that checksum is valid
